@@ -10,6 +10,9 @@ Oracles on the implementation's own outputs (independent of the model):
   closed    no TParam / TApp / TVar / ETraitCall in the real Mono, Lift and ANF dumps
   names     function names of the real Mono program pairwise distinct
   instances no reference from Mono code to a Core function that has no Mono instance
+  type-instances  every construction / arm pattern / field read of a data type in the real Mono program carries
+            the field types of the ONE definition monoenv holds under that type's name (two instantiations
+            given one name leave one definition: the code of the other one disagrees with it)
   panic     the real mono pass does not panic on an accepted program
   watchdog  the real mono pass returns (child process with a time and memory limit)
 """
@@ -73,6 +76,10 @@ def collect(ctx):
             d["callsig"] = [x.split(">") for x in r[2:]]
         elif k == "UNSPEC":
             d["unspec"] = [x.split(">") for x in r[2:]]
+        elif k == "TYINST":
+            d["tyinst"] = [[vlib.unesc(y) for y in x.split("\x1f")] for x in r[2:]]
+        elif k == "TYINSTN":
+            d["tyinstn"] = (int(r[2]), int(r[3]))
         elif k in ("PANIC", "REJECT"):
             d[k.lower()] = (r[2], vlib.unesc(r[3]) if len(r) > 3 else "")
         elif k == "HANG":
@@ -120,7 +127,7 @@ def run(ctx):
     n_tie = n_tie_eq = n_tie_panic = 0
     n_sem = n_sem_eq = n_sem_skip_stuck = n_sem_skip_fuel = n_sem_skip_ext = 0
     n_closed = n_closed_ok = 0
-    n_inst = 0
+    n_inst = n_tyinst_sites = n_tyinst_types = 0
     later_panics = {}
     distinct, samples = set(), []
     streams = {}
@@ -176,6 +183,17 @@ def run(ctx):
                        "a call in the Mono program is annotated with a function type that is not the signature of the Mono function it names "
                        "(call sites at different types share one instance, or an instance was emitted without binding a type parameter)",
                        {"id": k, "src": src, "calls(caller>callee)": d["callsig"][:6]})
+        # ---- oracle: distinct type instantiations never share a name or a definition
+        n_tyinst_sites += d.get("tyinstn", (0, 0))[0]
+        n_tyinst_types += d.get("tyinstn", (0, 0))[1]
+        ti = [c for c in d.get("tyinst", []) if len(c) >= 5]
+        for site in sorted({c[2] for c in ti}):
+            cs = [c for c in ti if c[2] == site]
+            ctx.report({"oracle": "type-instances", "kind": "use-disagrees-with-definition", "site": site},
+                       "the Mono program builds / matches / reads a monomorphic data type at field types other than those of the one "
+                       "definition registered under its name (distinct instantiations share a name, or an instance was registered with "
+                       f"the wrong body): {cs[0][1]} is defined with [{cs[0][3]}] and used in {cs[0][0]} with [{cs[0][4]}]",
+                       {"id": k, "src": src, "conflicts": [dict(zip(("function", "type", "site", "defined", "used"), c)) for c in cs[:6]]})
         # ---- oracle: the type instances mono registered are closed
         dr = defs.get(f"D!{k}")
         if dr is None or dr[0] not in ("closed", "open"):
@@ -298,7 +316,8 @@ def run(ctx):
     ctx.violations.sort(key=lambda v: len(v[2].get("src") or "x" * 10**6))
     cov = {
         "evaluations": len(main) + len(rec), "distinct_nontrivial": len(distinct),
-        "rule": "one case = one goml program (74 corpus programs, witnesses under corpus/C07, generated programs over a library of generic "
+        "rule": "one case = one goml program (74 corpus programs, witnesses under corpus/C07, the instantiation-pair catalogue `inst:` (5 generic "
+                "containers x 17 positions of the one differing leaf inside the argument's type tree, leaf pair rotating with the seed), generated programs over a library of generic "
                 "functions/methods/types plus random generic functions, instantiated at primitives, tuples, arrays, Vec, Ref, function types, "
                 "structs, enums, nested and recursive generic types, trait-bounded generics); non-trivial = at least two specialised instances; "
                 "distinct by the set of instance names",
@@ -306,6 +325,7 @@ def run(ctx):
         "streams": streams, "generator_features": feats,
         "tie_cases": n_tie, "tie_mono_dump_equal": n_tie_eq, "tie_both_panic": n_tie_panic,
         "instances_specialised_total": n_inst,
+        "type_instance_use_sites_checked": n_tyinst_sites, "type_instances_used(sum over programs)": n_tyinst_types,
         "sem_compared": n_sem, "sem_equal": n_sem_eq, "sem_skipped_core_needs_type_passing": n_sem_skip_stuck,
         "sem_skipped_fuel": n_sem_skip_fuel, "sem_with_extern_events(compared)": n_sem_skip_ext,
         "closed_dumps_checked": n_closed, "closed_dumps_ok": n_closed_ok,
